@@ -27,6 +27,8 @@ class Opaque:
 
 def dump(v):
     """Python value -> JSON-able structure (lossless for supported types)."""
+    if hasattr(v, '__vmon_case__'):
+        v = v.__vmon_case__()
     if v is None or isinstance(v, bool):
         return v
     if isinstance(v, int):
@@ -56,7 +58,8 @@ def dump(v):
                         v.microsecond, v.fold],
                 'off': None if off is None else off.total_seconds()}
     if isinstance(v, time.struct_time):
-        return {'$st': list(v)}
+        return {'$st': list(v), 'zone': getattr(v, 'tm_zone', None),
+                'gmtoff': getattr(v, 'tm_gmtoff', None)}
     if isinstance(v, tuple):
         return {'$t': [dump(x) for x in v]}
     if isinstance(v, list):
@@ -103,6 +106,9 @@ def load(j):
             return datetime.datetime(y, mo, d, h, mi, s, us, tzinfo=tz,
                                      fold=fold)
         if '$st' in j:
+            if j.get('zone') is not None or j.get('gmtoff') is not None:
+                return time.struct_time(tuple(j['$st']) + (j.get('zone'),
+                                                           j.get('gmtoff')))
             return time.struct_time(j['$st'])
         if '$t' in j:
             return tuple(load(x) for x in j['$t'])
